@@ -159,6 +159,15 @@ theorem keyedFold_results_perm (f : β → α → β) (init : β) (xs : List (El
   rw [List.perm_ext_iff_of_nodup hnd hn]
   intro k; rw [hmem, hm]
 
+/-- **C07 (group_by + fold, any key-respecting partition).** A replica of the keyed stream
+    receives the data elements of the keys assigned to it (`mine`), in their relative order, and
+    the control elements. For every key assigned to it, the result it computes is the result
+    computed over the whole stream: co-locating keys is all that matters. -/
+theorem keyedFold_parallel (f : β → α → β) (init : β) (xs : List (Elem (κ × α))) (mine : κ → Bool)
+    (k : κ) (hk : mine k = true) :
+    resultFor f init (xs.filter (keep mine)) k = resultFor f init xs k := by
+  simp only [resultFor, proj_filter_keep mine k hk xs]
+
 /-- **C07 (nothing is carried over, keyed).** After an iteration the operator is in its initial
     state: no accumulator and no timestamp of an earlier iteration can leak into the next one. -/
 theorem keyedFold_resets (f : β → α → β) (init : β) (its : List (List (Elem (κ × α))))
@@ -266,6 +275,13 @@ theorem twoPhase_emits_iff (loc : β → α → β) (init : β)
     rw [List.flatten_eq_nil_iff] at hnil
     simp only [partials, List.map_eq_nil_iff, List.filter_eq_nil_iff]
     intro p hpm; simp [hnil p hpm]
+
+/-- **C07 (timestamp of a two-phase result).** Each replica stamps its partial result with the
+    maximum timestamp it saw (`fold_iteration`), the global phase with the maximum of the stamps of
+    the partial results: that is the maximum input timestamp, for every partition. -/
+theorem twoPhase_timestamp (input : List Int) (parts : List (List Int)) (hp : parts.flatten.Perm input) :
+    Fold.maxOpt (parts.filterMap Fold.maxOpt) = Fold.maxOpt input := by
+  rw [Fold.maxOpt_parts]; exact Fold.maxOpt_perm hp
 
 /-- **C07 (keyed two-phase, `group_by_fold`).** Per key: folding, on every replica, the values
     of key `k` it saw and then folding those partial results globally equals the sequential fold
